@@ -14,7 +14,7 @@
 //! arch has `anew` (a new ArchiveManager WITHOUT open_all).
 //! A payload is written `<hex prefix> <fill byte> <n>` = prefix followed by n copies of fill.
 use cascette_client_storage::container::{AccessMode, Container, DynamicContainer, ResidencyContainer};
-use cascette_client_storage::index::update::{ENTRIES_PER_PAGE, MIN_UPDATE_SECTION_SIZE, UPDATE_PAGE_SIZE};
+use cascette_client_storage::index::update::{ENTRIES_PER_PAGE, MIN_UPDATE_SECTION_SIZE, UPDATE_PAGE_SIZE, UPDATE_SECTION_ALIGNMENT};
 use cascette_client_storage::storage::local_header::LOCAL_HEADER_SIZE;
 use cascette_client_storage::storage::{ArchiveManager, LocalHeader};
 use cascette_client_storage::{Installation, StorageError};
@@ -181,6 +181,27 @@ struct H {
     last_total: u64,
     /// index mutations per bucket in the current case (see `Obj::nth`)
     bmut: [u32; 16],
+    /// the reference's count of what each bucket's `.idx` file holds (diagnostics only: names
+    /// the size class of the file in a failure message): entries merged into the sorted section
+    /// by the last flush (explicit, or implicit when a mutation found the update section full)
+    /// and mutations pending in the update section since
+    bsorted: [u32; 16],
+    bpend: [u32; 16],
+    /// stored keys per bucket by the reference map
+    blive: [u32; 16],
+}
+
+/// `.idx` v7 layout (`IndexManager::save_index`): 8 (guarded block) + 16 (header) + 8 (padding) +
+/// 8 (guarded block) bytes, then the sorted entries of 9 + 5 + 4 bytes each, then zero padding up
+/// to the next multiple of `UPDATE_SECTION_ALIGNMENT`, then the update pages (only when at least
+/// one update is pending)
+const IDX_SORTED_START: usize = 40;
+const IDX_ENTRY_SIZE: usize = 18;
+
+/// the least number of sorted entries whose section ends BEYOND the `k`-th alignment boundary
+/// (`k` = 1: 3639 entries, 65542 bytes; one entry less ends at 65524)
+fn sorted_crossing(k: usize) -> usize {
+    (k * UPDATE_SECTION_ALIGNMENT - IDX_SORTED_START) / IDX_ENTRY_SIZE + 1
 }
 
 fn consts() -> String {
@@ -233,6 +254,9 @@ impl H {
             self.st_small_after_large = 0;
             self.last_total = 0;
             self.bmut = [0; 16];
+            self.bsorted = [0; 16];
+            self.bpend = [0; 16];
+            self.blive = [0; 16];
             self.trace.push(line.to_string());
             let kind = toks.get(1).copied().unwrap_or("");
             let want = match kind {
@@ -301,24 +325,54 @@ impl H {
         self.last_total = total;
         let shape = payload_shape(&data);
         let b = bucket_of(&k9(&key)) as usize;
-        self.bmut[b] += 1;
-        refm.insert(k9(&key), Obj { data, later_writes: 0, reopened: false, shape, unloaded: false, clobbered: false, nth: self.bmut[b] });
+        self.note_mutation(b);
+        if refm.insert(k9(&key), Obj { data, later_writes: 0, reopened: false, shape, unloaded: false, clobbered: false, nth: self.bmut[b] }).is_none() {
+            self.blive[b] += 1;
+        }
         key
     }
 
-    fn absent(removed: &HashMap<K9, u32>, k: &K9) -> String {
+    /// reference bookkeeping for one index mutation (successful write, remove of a stored key)
+    /// of bucket `b`, called BEFORE `blive` is adjusted: a mutation that finds the update section
+    /// full merges the pending entries into the sorted section first
+    fn note_mutation(&mut self, b: usize) {
+        let cap = (MIN_UPDATE_SECTION_SIZE / UPDATE_PAGE_SIZE) * ENTRIES_PER_PAGE;
+        self.bmut[b] += 1;
+        if self.bpend[b] as usize >= cap {
+            self.bsorted[b] = self.blive[b];
+            self.bpend[b] = 0;
+        }
+        self.bpend[b] += 1;
+    }
+    /// explicit flush of bucket `b` (nothing happens when no update is pending)
+    fn note_flush(&mut self, b: usize) {
+        if b < 16 && self.bpend[b] > 0 {
+            self.bsorted[b] = self.blive[b];
+            self.bpend[b] = 0;
+        }
+    }
+    /// what the reference expects bucket `b`'s `.idx` file to look like (for failure messages;
+    /// not meaningful after an Installation session that skipped initialize())
+    fn layout(&self, b: u8) -> String {
+        let (n, p) = (self.bsorted[b as usize] as usize, self.bpend[b as usize]);
+        let end = IDX_SORTED_START + IDX_ENTRY_SIZE * n;
+        let at = end.div_ceil(UPDATE_SECTION_ALIGNMENT) * UPDATE_SECTION_ALIGNMENT;
+        format!("by the reference's count the .idx file of bucket {b} now holds {n} flushed entries (its sorted section ends at byte {end} = {IDX_SORTED_START} + {IDX_ENTRY_SIZE} x {n}; the update section belongs at the next multiple of {UPDATE_SECTION_ALIGNMENT}, byte {at}) and {p} pending update(s) behind them")
+    }
+
+    fn absent(&self, removed: &HashMap<K9, u32>, k: &K9) -> String {
         let cap = (MIN_UPDATE_SECTION_SIZE / UPDATE_PAGE_SIZE) * ENTRIES_PER_PAGE;
         match removed.get(k) {
-            Some(n) => format!("was removed (the successful remove was index mutation #{n} of bucket {} in this case; a bucket's update section holds {cap} entries in pages of {ENTRIES_PER_PAGE})", bucket_of(k)),
+            Some(n) => format!("was removed (the successful remove was index mutation #{n} of bucket {} in this case; a bucket's update section holds {cap} entries in pages of {ENTRIES_PER_PAGE}; {})", bucket_of(k), self.layout(bucket_of(k))),
             None => "was never written".to_string(),
         }
     }
 
     /// where a written object sits in the history of its index bucket (for failure messages)
-    fn place(k: &K9, o: &Obj) -> String {
+    fn place(&self, k: &K9, o: &Obj) -> String {
         let cap = (MIN_UPDATE_SECTION_SIZE / UPDATE_PAGE_SIZE) * ENTRIES_PER_PAGE;
-        format!("its write was index mutation #{} of bucket {} in this case, {} later write(s) followed, reopened since: {}; a bucket's update section holds {} entries in pages of {}",
-            o.nth, bucket_of(k), o.later_writes, o.reopened, cap, ENTRIES_PER_PAGE)
+        format!("its write was index mutation #{} of {} of bucket {} in this case, {} later write(s) followed, reopened since: {}; a bucket's update section holds {} entries in pages of {}; {}",
+            o.nth, self.bmut[bucket_of(k) as usize], bucket_of(k), o.later_writes, o.reopened, cap, ENTRIES_PER_PAGE, self.layout(bucket_of(k)))
     }
 
     fn when(o: &Obj) -> &'static str {
@@ -371,10 +425,10 @@ impl H {
                         self.note_read(o);
                         let c = err_class(e);
                         self.fail(s, &format!("dyn-read-written-key-{}-{}", &c[4..], Self::when(o)),
-                            format!("read({}) of a successfully written {}-byte object failed: {e} ({})", hex::encode(k9(&key)), o.data.len(), Self::place(&k9(&key), o)));
+                            format!("read({}) of a successfully written {}-byte object failed: {e} ({})", hex::encode(k9(&key)), o.data.len(), self.place(&k9(&key), o)));
                     }
                     (Ok(n), None) => {
-                        let how = Self::absent(&d.removed, &k9(&key));
+                        let how = self.absent(&d.removed, &k9(&key));
                         self.fail(s, "dyn-read-absent-key-ok", format!("read({}) returned {n} bytes for a key that {how}", hex::encode(k9(&key))));
                     }
                     (Err(e), None) => {
@@ -395,7 +449,7 @@ impl H {
                 match r {
                     Ok(b) => {
                         if b != want {
-                            let pl = d.refm.get(&k9(&key)).map(|o| format!(" ({})", Self::place(&k9(&key), o))).unwrap_or_else(|| format!(" (the key {})", Self::absent(&d.removed, &k9(&key))));
+                            let pl = d.refm.get(&k9(&key)).map(|o| format!(" ({})", self.place(&k9(&key), o))).unwrap_or_else(|| format!(" (the key {})", self.absent(&d.removed, &k9(&key))));
                             self.fail(s, &format!("dyn-query-{}-key-{b}", if want { "written" } else { "absent" }), format!("query({}) = {b}, reference says {want}{pl}", hex::encode(k9(&key))));
                         }
                         b.to_string()
@@ -411,7 +465,8 @@ impl H {
                 let r = self.rt.block_on(d.c.remove(&key));
                 if d.refm.remove(&k9(&key)).is_some() {
                     let b = bucket_of(&k9(&key)) as usize;
-                    self.bmut[b] += 1;
+                    self.note_mutation(b);
+                    self.blive[b] -= 1;
                     d.removed.insert(k9(&key), self.bmut[b]);
                 }
                 match r {
@@ -425,12 +480,12 @@ impl H {
             ["flush", b] => {
                 let b: u8 = b.parse().ok()?;
                 match d.c.flush_bucket(b) {
-                    Ok(()) => "ok".into(),
+                    Ok(()) => { self.note_flush(b as usize); "ok".into() }
                     Err(e) => { self.fail(s, "dyn-flush-err", format!("flush_bucket({b}) failed: {e}")); err_class(&e).into() }
                 }
             }
             ["flushall"] => match d.c.flush_all_updates() {
-                Ok(()) => "ok".into(),
+                Ok(()) => { for b in 0..16 { self.note_flush(b); } "ok".into() }
                 Err(e) => { self.fail(s, "dyn-flush-err", format!("flush_all_updates failed: {e}")); err_class(&e).into() }
             },
             ["count"] => {
@@ -515,7 +570,7 @@ impl H {
                             self.failed = false;
                         } else {
                             self.fail(s, &format!("inst-read-written-key-{}-{}-{}", &c[4..], o.shape, Self::when(o)),
-                                format!("read_file_by_encoding_key({}) of a successfully written {}-byte object failed: {e} ({})", hex::encode(k9(&key)), o.data.len(), Self::place(&k9(&key), o)));
+                                format!("read_file_by_encoding_key({}) of a successfully written {}-byte object failed: {e} ({})", hex::encode(k9(&key)), o.data.len(), self.place(&k9(&key), o)));
                         }
                     }
                     (Ok(b), None) => {
@@ -544,7 +599,7 @@ impl H {
                         i.refm.retain(|_, o| !o.clobbered);
                         self.failed = false;
                     } else {
-                        let pl = want.as_ref().map(|o| format!(" ({})", Self::place(&k9(&key), o))).unwrap_or_default();
+                        let pl = want.as_ref().map(|o| format!(" ({})", self.place(&k9(&key), o))).unwrap_or_default();
                         self.fail(s, &format!("inst-has-{}-key-{b}", if want.is_some() { "written" } else { "absent" }), format!("has_encoding_key({}) = {b}{pl}", hex::encode(k9(&key))));
                     }
                 }
@@ -1117,8 +1172,22 @@ fn station_name(m: usize) -> String {
     if round > 1 { format!("{what}-round{round}") } else { what }
 }
 
+fn fill_put(g: &mut Gen, rng: &mut Rng, kind: &str, b: u8, avoid: bool, seen: &mut std::collections::HashSet<K9>) -> Option<[u8; 16]> {
+    let (p, _d, key) = craft_payload(rng, b, avoid, seen);
+    let r = if kind == "inst" { g.emit(format!("w {p} 0 0 {}", rng.below(2))) } else { g.emit(format!("w {p} 0 0")) };
+    if r.starts_with("ok") { g.keys.push(key); Some(key) } else { None }
+}
+fn fill_get(g: &mut Gen, kind: &str, k: &[u8; 16]) {
+    if kind == "inst" { g.emit(format!("r {}", hex::encode(k))); } else { let l = g.len_of(k); g.emit(format!("r {} {}", hex::encode(k), l + 8)); }
+}
+fn fill_reopen(g: &mut Gen, rng: &mut Rng, kind: &str) {
+    // inst: drop + open + initialize in one step, or as two (`open`, then `init`)
+    if kind == "inst" && rng.chance(1, 3) { g.emit("open".into()); g.emit("init".into()); } else { g.emit("reopen".into()); }
+}
+
 fn fill_case(g: &mut Gen, rng: &mut Rng, sp: &FillSpec) {
     let kind = sp.kind;
+    eprintln!("TIMING fill_case start {} {}", sp.label, std::time::SystemTime::now().duration_since(std::time::UNIX_EPOCH).unwrap().as_millis() % 1000000);
     g.begin(kind);
     let b = rng.below(16) as u8;
     g.s.tally(&format!("fill.case.{kind}.{}", sp.label));
@@ -1128,22 +1197,9 @@ fn fill_case(g: &mut Gen, rng: &mut Rng, sp: &FillSpec) {
     let mut gone: Vec<[u8; 16]> = vec![];
     let mut others: Vec<[u8; 16]> = vec![];
 
-    fn put(g: &mut Gen, rng: &mut Rng, kind: &str, b: u8, avoid: bool, seen: &mut std::collections::HashSet<K9>) -> Option<[u8; 16]> {
-        let (p, _d, key) = craft_payload(rng, b, avoid, seen);
-        let r = if kind == "inst" { g.emit(format!("w {p} 0 0 {}", rng.below(2))) } else { g.emit(format!("w {p} 0 0")) };
-        if r.starts_with("ok") { g.keys.push(key); Some(key) } else { None }
-    }
-    fn get(g: &mut Gen, kind: &str, k: &[u8; 16]) {
-        if kind == "inst" { g.emit(format!("r {}", hex::encode(k))); } else { let l = g.len_of(k); g.emit(format!("r {} {}", hex::encode(k), l + 8)); }
-    }
-    fn reopen(g: &mut Gen, rng: &mut Rng, kind: &str) {
-        // inst: drop + open + initialize in one step, or as two (`open`, then `init`)
-        if kind == "inst" && rng.chance(1, 3) { g.emit("open".into()); g.emit("init".into()); } else { g.emit("reopen".into()); }
-    }
-
     if sp.pre_flush && kind == "dyn" {
-        for _ in 0..rng.range(1, 30) { if let Some(k) = put(g, rng, kind, b, false, &mut seen) { mine.push(k); } }
-        if rng.chance(1, 2) { reopen(g, rng, kind); }
+        for _ in 0..rng.range(1, 30) { if let Some(k) = fill_put(g, rng, kind, b, false, &mut seen) { mine.push(k); } }
+        if rng.chance(1, 2) { fill_reopen(g, rng, kind); }
         g.emit(format!("flush {b}"));
     }
     let last = sp.stations.last().copied().unwrap_or(0);
@@ -1159,12 +1215,12 @@ fn fill_case(g: &mut Gen, rng: &mut Rng, sp: &FillSpec) {
             gone.push(k);
             g.s.tally("fill.boundary_crossed_by.rm");
         } else {
-            if let Some(k) = put(g, rng, kind, b, false, &mut seen) { mine.push(k); }
+            if let Some(k) = fill_put(g, rng, kind, b, false, &mut seen) { mine.push(k); }
             if sp.stations.contains(&m) { g.s.tally("fill.boundary_crossed_by.write"); }
         }
         if sp.stations.contains(&m) {
             g.s.tally(&format!("fill.station.{}", station_name(m)));
-            reopen(g, rng, kind);
+            fill_reopen(g, rng, kind);
             // sweep: every key of the bucket by query (newest first), the newest 24 (more than a
             // page), the oldest 3 and 16 others by read, removed keys, the entry count
             for k in mine.iter().rev().chain(gone.iter().rev()) { g.emit(format!("q {}", hex::encode(k))); }
@@ -1172,21 +1228,21 @@ fn fill_case(g: &mut Gen, rng: &mut Rng, sp: &FillSpec) {
             let mut ix: Vec<usize> = (n.saturating_sub(24)..n).rev().collect();
             ix.extend(0..n.min(3));
             for _ in 0..16 { if n > 0 { ix.push(rng.below(n as u64) as usize); } }
-            for i in ix { get(g, kind, &mine[i].clone()); }
-            for k in gone.iter().rev().take(8) { get(g, kind, &k.clone()); }
-            if let Some(k) = others.last().copied() { get(g, kind, &k); }
+            for i in ix { fill_get(g, kind, &mine[i].clone()); }
+            for k in gone.iter().rev().take(8) { fill_get(g, kind, &k.clone()); }
+            if let Some(k) = others.last().copied() { fill_get(g, kind, &k); }
             if kind == "dyn" { g.emit("count".into()); }
             continue;
         }
         if rng.below(1000) < sp.noise {
             match rng.below(10) {
-                0..=3 => { if let Some(k) = put(g, rng, kind, b, true, &mut seen) { others.push(k); } }
-                4 | 5 => { let k = if !mine.is_empty() && rng.chance(2, 3) { *rng.pick(&mine) } else { g.pick_key(rng) }; get(g, kind, &k); }
+                0..=3 => { if let Some(k) = fill_put(g, rng, kind, b, true, &mut seen) { others.push(k); } }
+                4 | 5 => { let k = if !mine.is_empty() && rng.chance(2, 3) { *rng.pick(&mine) } else { g.pick_key(rng) }; fill_get(g, kind, &k); }
                 6 => { let k = g.pick_key(rng); g.emit(format!("q {}", hex::encode(k))); }
                 7 => {
                     if kind == "dyn" { let ob = (b + 1 + rng.below(15) as u8) % 16; g.emit(format!("flush {ob}")); } else { g.emit("init".into()); }
                 }
-                8 => { reopen(g, rng, kind); if let Some(k) = mine.last().copied() { get(g, kind, &k); } }
+                8 => { fill_reopen(g, rng, kind); if let Some(k) = mine.last().copied() { fill_get(g, kind, &k); } }
                 _ => {
                     if kind == "dyn" && !others.is_empty() {
                         let k = others.swap_remove(rng.below(others.len() as u64) as usize);
@@ -1200,8 +1256,153 @@ fn fill_case(g: &mut Gen, rng: &mut Rng, sp: &FillSpec) {
     }
     // final sweep: every key written in the case, every removed key of the bucket
     let ks = g.keys.clone();
-    for k in &ks { get(g, kind, k); g.emit(format!("q {}", hex::encode(k))); }
-    for k in &gone { get(g, kind, k); g.emit(format!("q {}", hex::encode(k))); }
+    for k in &ks { fill_get(g, kind, k); g.emit(format!("q {}", hex::encode(k))); }
+    for k in &gone { fill_get(g, kind, k); g.emit(format!("q {}", hex::encode(k))); }
+    if kind == "dyn" { g.emit("marks".into()); g.emit("count".into()); }
+    g.end(kind);
+}
+
+// ---------------------------------------------------------------- sorted-section size classes
+//
+// A bucket's `.idx` file is [40 bytes][18 bytes x sorted entries][zero padding up to the next
+// multiple of UPDATE_SECTION_ALIGNMENT (64 KiB)][update pages]: where the update section lies
+// depends on how many entries have been FLUSHED into the sorted section, and `save_index` and
+// `load_index` compute that offset each on their own.  Up to 3638 flushed entries it is 65536
+// however it is computed - and every case above stays there (at most capacity + a short flushed
+// prefix = some 1300 entries per bucket); from 3639 entries it is 131072, from 7280 196608, ...
+// The cases below take ONE bucket's sorted section across such a boundary through container-level
+// writes / removes / flushes only, leave updates pending behind it, drop the store, open it again
+// and sweep the whole bucket.
+
+struct SortedSpec {
+    kind: &'static str,
+    /// which alignment boundary the sorted section crosses (1 = 64 KiB, 2 = 128 KiB, ...)
+    k: usize,
+    /// dyn only: explicit `flush` of the bucket when it holds exactly crossing-1, crossing,
+    /// crossing+1, crossing+2 keys (the sorted section then has exactly that many entries), each
+    /// followed by a few pending mutations and a reopen.  Otherwise (and always for an
+    /// Installation, which has no flush) the merges are the implicit ones of a full update
+    /// section: the sorted section grows by `capacity` entries at a time and passes the boundary
+    /// with the first such merge that takes it there.
+    explicit: bool,
+    /// per-mille chance of an unrelated operation (other bucket, read, query) after a mutation
+    noise: u64,
+    /// read every stored key in the final sweep (otherwise a sample)
+    read_all: bool,
+    label: &'static str,
+}
+
+fn sorted_case(g: &mut Gen, rng: &mut Rng, sp: &SortedSpec) {
+    let kind = sp.kind;
+    let pp = ENTRIES_PER_PAGE;
+    let cap = (MIN_UPDATE_SECTION_SIZE / UPDATE_PAGE_SIZE) * pp;
+    let nb = sorted_crossing(sp.k);
+    eprintln!("TIMING sorted_case start {} {}", sp.label, std::time::SystemTime::now().duration_since(std::time::UNIX_EPOCH).unwrap().as_millis() % 1000000);
+    g.begin(kind);
+    let b = rng.below(16) as u8;
+    g.s.tally(&format!("fill.case.{kind}.{}", sp.label));
+    let mut seen: std::collections::HashSet<K9> = std::collections::HashSet::new();
+    let mut mine: Vec<[u8; 16]> = vec![];
+    let mut gone: Vec<[u8; 16]> = vec![];
+    let mut others: Vec<[u8; 16]> = vec![];
+
+    // one mutation of the target bucket: a write of a new key, or (dyn, when asked) a remove of
+    // a stored one (the newest, the oldest, or any)
+    fn mutate(g: &mut Gen, rng: &mut Rng, kind: &str, b: u8, rm: bool, seen: &mut std::collections::HashSet<K9>, mine: &mut Vec<[u8; 16]>, gone: &mut Vec<[u8; 16]>) {
+        if rm && kind == "dyn" && mine.len() > 1 {
+            let i = match rng.below(4) { 0 => mine.len() - 1, 1 => 0, _ => rng.below(mine.len() as u64) as usize };
+            let k = mine.remove(i);
+            g.emit(format!("rm {}", hex::encode(k)));
+            g.keys.retain(|x| k9(x) != k9(&k));
+            gone.push(k);
+        } else if let Some(k) = fill_put(g, rng, kind, b, false, seen) {
+            mine.push(k);
+        }
+    }
+    fn noise(g: &mut Gen, rng: &mut Rng, kind: &str, b: u8, seen: &mut std::collections::HashSet<K9>, mine: &[[u8; 16]], others: &mut Vec<[u8; 16]>) {
+        match rng.below(6) {
+            0 => { if let Some(k) = fill_put(g, rng, kind, b, true, seen) { others.push(k); } }
+            1 | 2 => { if !mine.is_empty() { let k = *rng.pick(mine); fill_get(g, kind, &k); } }
+            3 => { let k = g.pick_key(rng); g.emit(format!("q {}", hex::encode(k))); }
+            4 => { if kind == "dyn" { let ob = (b + 1 + rng.below(15) as u8) % 16; g.emit(format!("flush {ob}")); } else { g.emit("init".into()); } }
+            _ => { if let Some(k) = others.last().copied() { fill_get(g, kind, &k); } }
+        }
+    }
+    // station: drop + open again BEFORE any further mutation of the bucket, then every key of the
+    // bucket by query (newest first; removed ones too), the newest 24 / oldest 3 / 16 others and
+    // the last removed ones by read, the entry count
+    fn station(g: &mut Gen, rng: &mut Rng, kind: &str, name: &str, mine: &[[u8; 16]], gone: &[[u8; 16]], others: &[[u8; 16]]) {
+        g.s.tally(&format!("fill.sorted_station.{name}"));
+        fill_reopen(g, rng, kind);
+        for k in mine.iter().rev().chain(gone.iter().rev()) { g.emit(format!("q {}", hex::encode(k))); }
+        let n = mine.len();
+        let mut ix: Vec<usize> = (n.saturating_sub(24)..n).rev().collect();
+        ix.extend(0..n.min(3));
+        for _ in 0..16 { if n > 0 { ix.push(rng.below(n as u64) as usize); } }
+        for i in ix { fill_get(g, kind, &mine[i]); }
+        for k in gone.iter().rev().take(8) { fill_get(g, kind, k); }
+        if let Some(k) = others.last() { fill_get(g, kind, k); }
+        if kind == "dyn" { g.emit("count".into()); }
+    }
+    let pend_class = |p: usize| if p == 1 { "1".to_string() } else if p <= 3 { "2-3".into() } else if p <= pp { "within-page".into() } else { "several-pages".into() };
+
+    if sp.explicit && kind == "dyn" {
+        // ---- exact sizes: fill until the bucket holds crossing-1 keys (implicit merges happen on
+        // the way), then flush explicitly at crossing-1 (the last size that ends below the
+        // boundary), crossing, crossing+1, crossing+2
+        while mine.len() < nb - 1 {
+            let rm = rng.below(1000) < 4;
+            mutate(g, rng, kind, b, rm, &mut seen, &mut mine, &mut gone);
+            if rng.below(1000) < sp.noise { noise(g, rng, kind, b, &mut seen, &mine, &mut others); }
+        }
+        for (i, rel) in ["crossing-1", "crossing", "crossing+1", "crossing+2"].iter().enumerate() {
+            // the bucket holds nb-1+i keys: after the flush its sorted section has exactly as many
+            g.emit(format!("flush {b}"));
+            // pending updates behind it; the first three scripts add exactly one key
+            let script: Vec<bool> = if i < 3 {
+                match rng.below(5) { 0 => vec![false, true, false], 1 => vec![true, false, false], _ => vec![false] }
+            } else {
+                (0..rng.range(2, 2 * pp as u64 + 2)).map(|_| rng.chance(1, 6)).collect()
+            };
+            for rm in &script { mutate(g, rng, kind, b, *rm, &mut seen, &mut mine, &mut gone); }
+            station(g, rng, kind, &format!("{kind}.boundary{}.flushed={rel}.pending={}", sp.k, pend_class(script.len())), &mine, &gone, &others);
+            if i < 3 { debug_assert_eq!(mine.len(), nb + i); }
+        }
+        // the reloaded update section is appended to, saved and loaded once more
+        for _ in 0..rng.range(1, pp as u64 + 2) { mutate(g, rng, kind, b, false, &mut seen, &mut mine, &mut gone); }
+        station(g, rng, kind, &format!("{kind}.boundary{}.flushed=beyond.pending=appended-after-reload", sp.k), &mine, &gone, &others);
+        // nothing pending: the file is the sorted section alone
+        g.emit(format!("flush {b}"));
+        station(g, rng, kind, &format!("{kind}.boundary{}.flushed=beyond.pending=0", sp.k), &mine, &gone, &others);
+    } else {
+        // ---- implicit merges only: mutation r*cap+1 finds the section full and merges r*cap
+        // entries (fewer by the removes) into the sorted section; stations at the last full
+        // section below the boundary and right behind the merge that crosses it
+        let rounds = nb.div_ceil(cap);
+        let full = rounds * cap;
+        let st = [full, full + 1, full + 2, full + pp + 1 + rng.below(pp as u64) as usize];
+        let rm_some = kind == "dyn";
+        let mut m = 0usize;
+        while m < st[3] {
+            m += 1;
+            // removes only early (the merged count must still pass the boundary)
+            let rm = rm_some && m < cap && rng.below(1000) < 5;
+            mutate(g, rng, kind, b, rm, &mut seen, &mut mine, &mut gone);
+            if let Some(i) = st.iter().position(|x| *x == m) {
+                let rel = ["section-full-before-crossing-merge", "merged-first-pending", "merged-second-pending", "merged-second-page"][i];
+                station(g, rng, kind, &format!("{kind}.boundary{}.implicit.{rel}", sp.k), &mine, &gone, &others);
+            } else if rng.below(1000) < sp.noise { noise(g, rng, kind, b, &mut seen, &mine, &mut others); }
+        }
+    }
+    // final sweep: every key by query, a sample (or all) by read
+    let ks = g.keys.clone();
+    for k in ks.iter().chain(gone.iter()) { g.emit(format!("q {}", hex::encode(k))); }
+    if sp.read_all {
+        for k in ks.iter().chain(gone.iter()) { fill_get(g, kind, k); }
+    } else {
+        for _ in 0..200 { let k = *rng.pick(&ks); fill_get(g, kind, &k); }
+        for k in gone.iter().take(20) { fill_get(g, kind, k); }
+    }
     if kind == "dyn" { g.emit("marks".into()); g.emit("count".into()); }
     g.end(kind);
 }
@@ -1257,6 +1458,14 @@ fn run_fill(g: &mut Gen, rng: &mut Rng, thorough: bool) {
             fill_case(g, rng, &FillSpec { kind, stations: st, rm_at, noise: 40, pre_flush: c % 4 == 0, label: "capacity-mixed" });
         }
     }
+    // ---- sorted section across the alignment boundary of the update section
+    sorted_case(g, rng, &SortedSpec { kind: "dyn", k: 1, explicit: true, noise: 0, read_all: false, label: "sorted-64k-exact" });
+    sorted_case(g, rng, &SortedSpec { kind: "inst", k: 1, explicit: false, noise: 0, read_all: false, label: "sorted-64k-implicit" });
+    if thorough {
+        sorted_case(g, rng, &SortedSpec { kind: "dyn", k: 1, explicit: false, noise: 3, read_all: true, label: "sorted-64k-implicit" });
+        sorted_case(g, rng, &SortedSpec { kind: "dyn", k: 2, explicit: true, noise: 2, read_all: true, label: "sorted-128k-exact" });
+        sorted_case(g, rng, &SortedSpec { kind: "inst", k: 2, explicit: false, noise: 1, read_all: false, label: "sorted-128k-implicit" });
+    }
 }
 
 fn main() {
@@ -1266,7 +1475,7 @@ fn main() {
     s.rule = "seeded histories on the real DynamicContainer (with a ResidencyContainer), Installation and ArchiveManager, one temp dir per case: 1..14 writes whose sizes follow a programme (large-then-small, slowly growing, equal, file exactly doubling +-1, empty payloads between others, one big then many tiny, random; every 9th case 20-70 KB payloads) with payload classes random / constant fill / 'BLTE'+garbage / 'BLTE' at 0x1E / whole valid BLTE file (N, Z, LZ4) / image of a local entry (30-byte header + BLTE) / the 49-byte witness shape; interleaved reads of earlier keys (own tail or foreign tail after the 9-byte prefix, absent keys; buffer = len, len-1, 0, len/2, len+64), queries, removes, flush/flushall, reopen (drop + new + open/initialize), residency-mark and entry counts; final sweep reads every key; fill cases (dyn and inst): payloads crafted by search so that their index key (MD5-derived) falls into ONE chosen bucket, driving that bucket's update section through its page boundaries (8 cases: 1-4 pages, stations at k*per_page-1, k*per_page, +1, +2) and its capacity (3 cases: cap-1, cap, cap+1 = the mutation that finds the section full and flushes implicitly, cap+2; pure writes on a DynamicContainer, writes on an Installation, and a DynamicContainer case with a flushed prefix, noise in other buckets, mid-fill reopens and the overflowing mutation being a remove; thorough also the second overflow at 2*cap+1) - at every station the store is dropped and opened again BEFORE any further mutation of the bucket, then every key of the bucket is queried (newest first), the newest 24 / oldest 3 / 16 random ones and the removed ones are read, entry_count is compared, and the case ends with a full read+query sweep; arch stream: modes N/Z/LZ4, read_content / read_raw of exact entries, header-less BLTE slice, short slices, ranges beyond the mapping, unknown archive, reopen; non-trivial = the case read a key written before a later write, or after a reopen, or a BLTE-shaped payload; distinct = canonical request text of the case".into();
     let mut rng = Rng::new(args.seed);
     let rt = tokio::runtime::Builder::new_current_thread().enable_all().build().expect("runtime");
-    let h = H { mode: Mode::None, rt, trace: vec![], failed: false, st_hist_reads: 0, st_reopen_reads: 0, st_blte_reads: 0, st_small_after_large: 0, last_total: 0, bmut: [0; 16] };
+    let h = H { mode: Mode::None, rt, trace: vec![], failed: false, st_hist_reads: 0, st_reopen_reads: 0, st_blte_reads: 0, st_small_after_large: 0, last_total: 0, bmut: [0; 16], bsorted: [0; 16], bpend: [0; 16], blive: [0; 16] };
     s.extra.insert("constants".into(), serde_json::json!({"cap_pages": MIN_UPDATE_SECTION_SIZE / UPDATE_PAGE_SIZE, "per_page": ENTRIES_PER_PAGE, "local_header_size": LOCAL_HEADER_SIZE}));
 
     if let Some(p) = &args.replay {
@@ -1285,11 +1494,17 @@ fn main() {
     {
         let t = args.thorough();
         let mut g = Gen { h, s: &mut s, case_text: String::new(), keys: vec![] };
+        let t0 = std::time::Instant::now();
         run_store(&mut g, &mut rng, "dyn", if t { 1500 } else { 170 }, t);
+        eprintln!("TIMING dyn {:?}", t0.elapsed());
         run_store(&mut g, &mut rng, "inst", if t { 900 } else { 110 }, t);
+        eprintln!("TIMING inst {:?}", t0.elapsed());
         run_arch(&mut g, &mut rng, if t { 700 } else { 90 });
+        eprintln!("TIMING arch {:?}", t0.elapsed());
         run_lim(&mut g, &mut rng, if t { 60 } else { 10 }, t);
+        eprintln!("TIMING lim {:?}", t0.elapsed());
         run_fill(&mut g, &mut rng, t);
+        eprintln!("TIMING fill {:?}", t0.elapsed());
     }
     s.finish();
 }
